@@ -305,11 +305,9 @@ func (c *Ctx) ExportRules(prop string, s *Slashing) {
 			st = s.PropState
 		}
 		for _, fh := range c.fetchHelpers(s, st) {
-			for _, ci := range Calls(fh, func(ci ssa.CallInstruction) bool { return ci.Common().StaticCallee() == s.StoreFetch }) {
-				if _, g, why := keyBuild(fh, ci.Common().Args[2]); why == "" && !seen[g] {
-					seen[g] = true
-					actions = append(actions, g)
-				}
+			if _, g, why := c.fetchKey(s, fh); why == "" && !seen[g] {
+				seen[g] = true
+				actions = append(actions, g)
 			}
 		}
 	}
